@@ -383,6 +383,9 @@ func (jit *JITCompiler) InvalidateCache(name string) {
 	jit.unitsMux.Lock()
 	delete(jit.units, name)
 	jit.unitsMux.Unlock()
+
+	// Type specialisations were compiled from the same definition.
+	jit.specializationCache.InvalidateSpecializations(name)
 }
 
 // ClearCache removes all compilation units from the cache
@@ -390,6 +393,8 @@ func (jit *JITCompiler) ClearCache() {
 	jit.unitsMux.Lock()
 	jit.units = make(map[string]*CompilationUnit)
 	jit.unitsMux.Unlock()
+
+	jit.specializationCache.InvalidateAll()
 }
 
 // GetProfiler returns the profiler instance
